@@ -190,6 +190,11 @@ def evaluate(ctx, cases):
                        'theorem': 'C15_upa_check_correct / C15_edc_check_correct'})
 
 
+def _copy_model(m):
+    import copy
+    return copy.deepcopy(m)
+
+
 def gen_cases(ctx):
     rng = ctx.rng
     cases = []
@@ -238,6 +243,23 @@ def gen_cases(ctx):
         m = cm.G('choice', [cm.G('seq', b1, (1, 1)), cm.G('seq', [cm.E(second), cm.E('h')], (1, 1))], oo)
         for v in ('1.0', '1.1'):
             cases.append(make_case(m, v))
+    # a nested choice with an emptiable alternative before / after the alternative that competes with a particle outside the
+    # choice: ((b? | a), a), ((a | b?), a), (a, (b? | a))+, (((b?) | m), h) and their neighbours
+    import itertools
+    nested = []
+    for emp in (cm.E('b', (0, 1)), cm.G('seq', [cm.E('b', (0, 1))], (1, 1)), cm.E('b', (0, None))):
+        for comp, out in (('a', 'a'), ('m', 'h'), ('h', 'm'), ('a', 'b')):
+            for third in (None, 'c'):
+                alts = [emp, cm.E(comp)] + ([cm.E(third)] if third else [])
+                for perm in itertools.permutations(alts):
+                    for io in [(1, 1), (1, 2)]:
+                        inner = cm.G('choice', list(perm), io)
+                        for first in (True, False):
+                            for oo in [(1, 1), (1, None)]:
+                                nested.append(cm.G('seq', [inner, cm.E(out)] if first else [cm.E(out), inner], oo))
+    for m in (nested if not ctx.quick() else rng.sample(nested, 120)):
+        for v in (('1.0', '1.1') if not ctx.quick() else (rng.choice(['1.0', '1.1']),)):
+            cases.append(make_case(_copy_model(m), v))
     # wildcards declared in schema documents with different target namespaces (extension of an imported base type)
     forms = ['##any', '##other', '##local', '##targetNamespace', cm.TNS, cm.ONS, cm.PNS, '%s %s' % (cm.ONS, cm.PNS), '##local %s' % cm.TNS]
     cross = [(a, o1, b, o2) for a in forms for b in forms for o1 in [(0, 1), (0, None), (1, 1)] for o2 in [(1, 1), (0, 1), (0, None)]]
